@@ -601,7 +601,7 @@ def r07_7(ctx):
     ctx.need(len(k1) == 1, f"exactly one `% K != 0` validator in TcpOption::parse (found {sorted(k1)})")
     K1 = k1.pop()
     k2, k3 = set(), set()
-    for cb in F.closures_of(p.key):
+    for cb in [p] + list(F.closures_of(p.key)):       # the block reader is a closure (for_each) or a loop in parse itself
         for bi, c, args, dest, tgt, ln in cb.calls():
             syn = c.get('fn') if isinstance(c, dict) else None
             if syn in INDEX_CALLS and len(args) == 2:
@@ -920,6 +920,14 @@ def r03_7(ctx):
             if bl['cl']:
                 continue
             t = bl['t']
+            if t[0] == 'call' and len(t[2]) == 2 and (b.callee_name(t[1]) or '').endswith('core::slice::<impl [T]>::get'):
+                # the checked form of the same access: `table.get(index)` cannot panic whatever the index is
+                gi = simplify(F.origin.operand(b, t[2][1], bi, len(bl['s'])))
+                if const_of(gi) is None and strip(gi)[0] != 'agg' and not any(l.endswith('::next') for l in leafs(gi) if l.startswith('C:')) \
+                        and any(l.startswith('A:') or l.startswith('U:') for l in leafs(gi)):
+                    n += 1
+                    ctx.ok((k.split('wire::')[-1], 'get(index)', bi), sample=dict(fn=k.split('wire::')[-1], access='table.get(index) (checked)'))
+                continue
             if not (t[0] == 'assert' and t[3].get('k') == 'bounds'):
                 continue
             si = len(bl['s'])
